@@ -278,6 +278,11 @@ func (mi *MessageInfo) unmarshalPointerLazy(b []byte, p pointer, groupTag protow
 						requiredMask |= f.validation.requiredBit
 						if !o.initialized {
 							initialized = false
+							// The field is kept in its lazy form although required
+							// fields are missing inside it. Do not record that
+							// required fields were checked on unmarshal, so that
+							// CheckInitialized examines the field instead of skipping it.
+							(*lazy).SetUnmarshalFlags((*lazy).UnmarshalFlags() &^ piface.UnmarshalCheckRequired)
 						}
 						n = o.n
 						break Field
